@@ -53,6 +53,10 @@ impl rustc_driver::Callbacks for Cb {
 
         let mut mir_out = String::new();
         let mut hir_out = String::new();
+        // Print every path fully qualified: `crate::…` for local items (rewritten to the crate's
+        // name below), untrimmed paths for foreign ones.
+        let _g1 = rustc_middle::ty::print::CratePrefixGuard::new();
+        let _g2 = rustc_middle::ty::print::NoTrimmedGuard::new();
 
         // Header: ADTs, impls.
         let header = header_facts(tcx, &crate_name);
@@ -88,6 +92,9 @@ impl rustc_driver::Callbacks for Cb {
         };
         trailer.write(&mut mir_out);
         mir_out.push('\n');
+        let prefix = format!("{crate_name}::");
+        let mir_out = mir_out.replace("crate::", &prefix);
+        let hir_out = hir_out.replace("crate::", &prefix);
         std::fs::write(format!("{stem}.mir.jsonl"), mir_out).expect("write mir facts");
         std::fs::write(format!("{stem}.hir.jsonl"), hir_out).expect("write hir facts");
         Compilation::Continue
